@@ -34,6 +34,43 @@ SPEC_TYPE_PARAMS = {
     "eff_noise": ("eff_noise_rates", "eff_noise_opers"),
 }
 
+# rate-like parameters stored as 0.0 when not given (NoiseModel docstring / `or 0.0` rule) -- hand written
+SPEC_ZEROED = ("state_prep_error", "p_false_pos", "p_false_neg", "temperature", "amp_sigma", "relaxation_rate",
+               "dephasing_rate", "hyperfine_dephasing_rate", "depolarizing_rate")
+# documented defaults of NoiseModel.__init__ -- hand written
+SPEC_NOISE_DEFAULTS = {"eff_noise_rates": (), "eff_noise_opers": (), "with_leakage": False}
+SPEC_NOISE_PARAMS = ("runs", "samples_per_run", "state_prep_error", "p_false_pos", "p_false_neg", "temperature",
+                     "laser_waist", "amp_sigma", "relaxation_rate", "dephasing_rate", "hyperfine_dephasing_rate",
+                     "depolarizing_rate", "eff_noise_rates", "eff_noise_opers", "with_leakage")
+# documented precision of trap coordinates (pulser.register.traps.COORD_PRECISION) -- hand written
+SPEC_COORD_PRECISION = 6
+
+
+def spec_types(get) -> list[str]:
+    """Active noise types from parameter values (`get(param)`), by the documented relation."""
+    return sorted(t for t, ps in SPEC_TYPE_PARAMS.items() if any(truthy(get(p)) for p in ps))
+
+
+def spec_relevant(get) -> set[str]:
+    """The parameters a noise model's behaviour depends on: those of its active types; runs / samples_per_run
+    when a stochastic noise is active (doppler, amplitude with fluctuations, SPAM with preparation errors);
+    laser_waist only when defined.  Re-stated here, not read from NoiseModel._find_relevant_params."""
+    types = spec_types(get)
+    rel: set[str] = set()
+    for t in types:
+        rel |= set(SPEC_TYPE_PARAMS[t])
+    if "doppler" in types or ("amplitude" in types and truthy(get("amp_sigma"))) or (
+            "SPAM" in types and truthy(get("state_prep_error"))):
+        rel |= {"runs", "samples_per_run"}
+    if get("laser_waist") is None:
+        rel.discard("laser_waist")
+    return rel
+
+
+def noise_relevant(nm) -> set[str]:
+    return spec_relevant(lambda p: getattr(nm, p))
+
+
 FAMILIES = ["channel", "device", "layout", "noise", "simconfig", "register", "detmap", "config", "results", "stateop"]
 
 FLOATS = [0.1, 0.25, 0.5, 1.0, 1.5, 2.0, 2.5, 4.0, 10.0, 12.5, 2 * math.pi, 15.7, 31.4, 125.66, 1e-3, 0.3, 7.0]
@@ -930,10 +967,9 @@ def snap_register(reg):
 def snap_detmap(dm, ordered: bool):
     if ordered:  # the fields as given (dataclass field `weights`, property `trap_coordinates`), coordinates at
         # the library's COORD_PRECISION (sub-precision digits are dropped by design)
-        from pulser.register.traps import COORD_PRECISION
-
         return tb.vobj([("weights", to_value(list(dm.weights))),
-                        ("trap_coordinates", to_value((np.round(dm.trap_coordinates, COORD_PRECISION) + 0.0).tolist())),
+                        ("trap_coordinates", to_value((np.round(dm.trap_coordinates, SPEC_COORD_PRECISION)
+                                                       + 0.0).tolist())),
                         ("slug", to_value(dm.slug))])
     return tb.vobj([("sorted_weights", to_value(dm.sorted_weights.tolist())),
                     ("sorted_coords", to_value(dm.sorted_coords.tolist())), ("slug", to_value(dm.slug))])
@@ -1147,7 +1183,7 @@ def _encode_case(family, spec, exc_name) -> str | None:
 
 def _noise_diff_case(a, b) -> str:
     """Why two noise models differ: only in parameters no active noise type uses, or otherwise."""
-    rel = type(a)._find_relevant_params(a.noise_types, a.state_prep_error, a.amp_sigma, a.laser_waist)
+    rel = noise_relevant(a)
     diff = [f.name for f in dataclasses.fields(a) if not _approx_equal(getattr(a, f.name), getattr(b, f.name))
             and getattr(a, f.name) != getattr(b, f.name)]
     return "irrelevant-param" if diff and all(d not in rel for d in diff) else "relevant-param"
@@ -1159,15 +1195,15 @@ def _case_of(family, spec, obj, field, dec=None) -> str | None:
             and obj.default_noise_model is not None and dec.default_noise_model is not None:
         return _noise_diff_case(obj.default_noise_model, dec.default_noise_model)
     if family == "device" and field == "dmm_objects":
-        return "empty" if len(obj.dmm_objects) == 0 else "non-empty"
+        n = len(obj.dmm_objects) if spec.get("dmms") is None else len(spec["dmms"])
+        return "empty" if n == 0 else "non-empty"
     if family in ("noise",) and field in ("runs", "samples_per_run"):
-        rel = type(obj)._find_relevant_params(obj.noise_types, obj.state_prep_error, obj.amp_sigma, obj.laser_waist)
+        rel = spec_relevant(lambda p: spec["kw"].get(p))
         return "irrelevant-param" if field not in rel else "relevant-param"
     if family == "detmap" and field in ("given",):
-        from pulser.register.traps import COORD_PRECISION
-
-        given = (np.round(np.asarray(obj.trap_coordinates), COORD_PRECISION) + 0.0).tolist()
-        return "unsorted" if given != (obj.sorted_coords + 0.0).tolist() else "sorted"
+        # from the constructor arguments, with python's own tuple ordering (x, then y)
+        given = [_round_coord(c) for c in spec["coords"]]
+        return "unsorted" if given != sorted(given) else "sorted"
     if family == "results" and field == "results":
         kinds = {e["kind"] for e in spec["entries"]}
         if "complex" in kinds:
@@ -1251,6 +1287,142 @@ def monitor_noise_types(spec, nm) -> list[Fail]:
     return []
 
 
+def _round_coord(c) -> tuple:
+    return tuple(round(float(x), SPEC_COORD_PRECISION) + 0.0 for x in c)
+
+
+def _num_eq(a, b) -> bool:
+    """Numeric / structural equality of plain python data (ints and floats alike, tuples and lists alike)."""
+    if isinstance(a, (list, tuple)) or isinstance(b, (list, tuple)):
+        return isinstance(a, (list, tuple)) and isinstance(b, (list, tuple)) and len(a) == len(b) and all(
+            _num_eq(x, y) for x, y in zip(a, b))
+    if isinstance(a, dict) or isinstance(b, dict):
+        return isinstance(a, dict) and isinstance(b, dict) and set(a) == set(b) and all(
+            _num_eq(a[k], b[k]) for k in a)
+    if a is None or b is None or isinstance(a, str) or isinstance(b, str):
+        return a is b or (isinstance(a, str) and isinstance(b, str) and a == b)
+    if isinstance(a, bool) or isinstance(b, bool):
+        return isinstance(a, bool) and isinstance(b, bool) and a == b
+    return complex(a) == complex(b)
+
+
+def monitor_spec(family: str, spec, dec) -> list[Fail]:
+    """The decoded object against the *constructor arguments* it must reproduce (an oracle that does not go
+    through the original object's attributes, derived views, __eq__ or the library's sorting / relevance code)."""
+    out: list[Fail] = []
+
+    def bad(field, msg):
+        out.append(Fail("roundtrip-spec", _key(family, spec, "roundtrip-spec", field=field), msg[:300]))
+
+    with warnings.catch_warnings():
+        warnings.simplefilter("ignore")
+        if family == "layout":
+            exp = sorted(_round_coord(c) for c in spec["coords"])
+            got = sorted(_round_coord(c) for c in np.asarray(dec._coords, dtype=float).tolist())
+            if exp != got:
+                bad("coordinates", f"decoded layout holds {got[:4]}…, constructed from {exp[:4]}…")
+            if dec.slug != spec["slug"]:
+                bad("slug", f"slug {dec.slug!r} != {spec['slug']!r}")
+        elif family == "detmap":
+            exp = {_round_coord(c): float(w) for c, w in zip(spec["coords"], spec["weights"])}
+            got = {_round_coord(c): float(w) for c, w in zip(np.asarray(dec.trap_coordinates).tolist(), dec.weights)}
+            if exp != got:
+                bad("weights", f"decoded trap -> weight map {sorted(got.items())[:3]} != {sorted(exp.items())[:3]}")
+            if dec.slug != spec["slug"]:
+                bad("slug", f"slug {dec.slug!r} != {spec['slug']!r}")
+        elif family == "register":
+            if [str(i) for i in dec.qubit_ids] != [str(i) for i in spec["ids"]] and spec["ids"]:
+                bad("ids", f"ids {dec.qubit_ids} != {spec['ids']}")
+            got = [tuple(float(x) for x in c) for c in np.asarray(dec._coords_arr.as_array(detach=True)).tolist()]
+            if spec["layout"] is None:
+                exp = [tuple(float(x) for x in c) for c in spec["coords"]]
+            else:
+                # which coordinates the trap ids stand for is the layout's numbering (property C19): only the
+                # numbering-independent parts are checked here; the coordinates are compared with the original's
+                traps = sorted(_round_coord(c) for c in spec["layout"]["coords"])
+                exp = got
+                lay = dec.layout
+                if lay is None:
+                    bad("layout", "decoded register has no layout")
+                else:
+                    if sorted(_round_coord(c) for c in np.asarray(lay._coords, dtype=float).tolist()) != traps:
+                        bad("layout", "decoded layout has other traps than the one the register was defined from")
+                    if lay.slug != spec["layout"]["slug"]:
+                        bad("layout", f"layout slug {lay.slug!r} != {spec['layout']['slug']!r}")
+                    if list(dec._layout_info.trap_ids) != list(spec["trap_ids"]):
+                        bad("trap_ids", f"trap ids {dec._layout_info.trap_ids} != {spec['trap_ids']}")
+            if got != exp:
+                bad("coords", f"coordinates {got[:3]} != {exp[:3]}")
+        elif family == "noise":
+            kw = spec["kw"]
+            rel = spec_relevant(lambda p: kw.get(p))
+            types = spec_types(lambda p: kw.get(p))
+            if list(dec.noise_types) != types:
+                bad("noise_types", f"noise_types {dec.noise_types} != {types}")
+            for p in SPEC_NOISE_PARAMS:
+                given = kw.get(p, SPEC_NOISE_DEFAULTS.get(p))
+                if p in ("runs", "samples_per_run") and p not in rel and given is not None:
+                    continue  # stored although unused: the round-trip monitor reports it (finding C17-F3)
+                if p in SPEC_ZEROED and not truthy(given):
+                    given = 0.0
+                if p == "eff_noise_opers":
+                    given = [[[_cplx(e) for e in row] for row in op] for op in given]
+                    ok = len(given) == len(dec.eff_noise_opers) and all(
+                        np.array_equal(np.array(a, dtype=complex), tb._oper_array(b))
+                        for a, b in zip(given, dec.eff_noise_opers))
+                else:
+                    ok = _num_eq(given, getattr(dec, p))
+                if not ok:
+                    bad(p, f"{p}: decoded {getattr(dec, p)!r}, constructed with {given!r}")
+        elif family == "results":
+            if not isinstance(dec.atom_order, tuple) or list(dec.atom_order) != list(spec["atom_order"]):
+                bad("atom_order", f"atom_order {dec.atom_order!r} != {tuple(spec['atom_order'])!r}")
+            if dec.total_duration != spec["total_duration"] or isinstance(dec.total_duration, bool):
+                bad("total_duration", f"total_duration {dec.total_duration!r} != {spec['total_duration']!r}")
+            exp_tags, exp_times, exp_vals = {}, {}, {}
+            for e in spec["entries"]:
+                exp_tags[e["tag"]] = e["uuid"]
+                exp_times.setdefault(e["uuid"], []).extend(e["times"])
+                exp_vals.setdefault(e["uuid"], []).extend(
+                    (v["__ndarray__"] if isinstance(v, dict) and "__ndarray__" in v else
+                     complex(*v["__complex__"]) if isinstance(v, dict) and "__complex__" in v else v)
+                    for v in e["values"])
+            if {k: str(v) for k, v in dec._tagmap.items()} != exp_tags:
+                bad("tagmap", f"tagmap {dec._tagmap} != {exp_tags}")
+            if not _num_eq({str(k): v for k, v in dec._times.items()}, exp_times):
+                bad("times", f"times {dec._times} != {exp_times}")
+            if not _num_eq({str(k): v for k, v in dec._results.items()}, exp_vals):
+                bad("results", f"values {str(dec._results)[:120]} != {str(exp_vals)[:120]}")
+    return out
+
+
+def monitor_json_ids(family: str, spec, s: str | None) -> list[Fail]:
+    """Channel ids in the JSON: the ids given (or the documented "dmm_[index in dmm_objects]" for DMMs)."""
+    if s is None or family not in ("device", "channel"):
+        return []
+    j = json.loads(s)
+    got = [d.get("id") for d in j.get("dmm_objects", [])]
+    if got != [f"dmm_{i}" for i in range(len(got))]:
+        return [Fail("json-ids", _key(family, spec, "json-ids", field="dmm_objects"),
+                     f"DMM ids in the JSON are {got}")]
+    if family == "device" and spec.get("channel_ids"):
+        got = [d.get("id") for d in j.get("channels", [])]
+        if got != list(spec["channel_ids"]):
+            return [Fail("json-ids", _key(family, spec, "json-ids", field="channels"),
+                         f"channel ids in the JSON are {got}, given {spec['channel_ids']}")]
+    return []
+
+
+def monitor_relevance(spec, nm) -> list[Fail]:
+    """`NoiseModel._find_relevant_params` against the independent statement of which parameters matter."""
+    got = set(type(nm)._find_relevant_params(nm.noise_types, nm.state_prep_error, nm.amp_sigma, nm.laser_waist))
+    exp = spec_relevant(lambda p: spec["kw"].get(p))
+    if got != exp:
+        return [Fail("relevant-params", dict(clause="relevant-params", **{"class": "NoiseModel"}),
+                     f"relevant parameters {sorted(got)} but the active noise types imply {sorted(exp)}")]
+    return []
+
+
 def monitor_simconfig(spec, nm) -> tuple[list[Fail], dict]:
     """NoiseModel -> SimConfig -> NoiseModel keeps the active types and every relevant parameter."""
     from pulser_simulation import SimConfig
@@ -1269,7 +1441,7 @@ def monitor_simconfig(spec, nm) -> tuple[list[Fail], dict]:
     if tuple(sc.noise) != tuple(nm.noise_types) or tuple(back.noise_types) != tuple(nm.noise_types):
         fails.append(Fail("simconfig", dict(clause="simconfig", **{"class": "SimConfig"}, field="noise_types"),
                           f"noise types {nm.noise_types} -> {sc.noise} -> {back.noise_types}"))
-    rel = type(nm)._find_relevant_params(nm.noise_types, nm.state_prep_error, nm.amp_sigma, nm.laser_waist)
+    rel = spec_relevant(lambda p: spec["kw"].get(p))
     rename = {"state_prep_error": "eta", "p_false_pos": "epsilon", "p_false_neg": "epsilon_prime"}
     for p in sorted(rel):
         a, b = getattr(nm, p), getattr(back, p)
